@@ -66,10 +66,11 @@ def check_case(prop, case, il, ml, ctx):
     op = case.split(" ", 1)[0]
     probs = []
     I, M = kv(il), kv(ml)
+    expected = [t[1:] for t in case.split(" ")[1:] if t.startswith("=")]
     mode = PROPS[prop].get("oracle", "spec")
     if ml.startswith("MODEL-") or ml.startswith("UNKNOWN-OP"):
         return [f"model driver: {ml}"]
-    if "PANIC" in il:
+    if "PANIC" in (il.replace("test=PANIC", "") if mode == "model" else il):
         probs.append("implementation panicked")
         _kind(ctx, "PANIC")
     if "FMTERR" in il or "WRITEERR" in il:
@@ -83,12 +84,16 @@ def check_case(prop, case, il, ml, ctx):
         mlen = (len(ctx["mapping_line"]) - 3) // 2 if ctx.get("mapping_line") else 0
         if n_items > mlen:
             probs.append(f"{n_items} items from {mlen} bytes")
+        if expected and expected[0] not in il.split(";"):
+            probs.append(f"the printed line's record {expected[0][:160]} is not in the record stream {il[:300]}")
         _nontrivial(ctx, case, "|" in il)
         _kind(ctx, "items:ok" if re.search(r'(^|;)[HCFM]\|', il) else "items:errors-only")
         _kind(ctx, "items:with-error" if "E|" in il else "items:no-error")
     elif op in ("R", "D", "FR", "TH"):
         if il != ml:
             probs.append(f"{op}: implementation {il[:300]!r} model {ml[:300]!r}")
+        if expected and il != expected[0]:
+            probs.append(f"{op}: implementation {il[:300]!r} but the grammar says {expected[0][:300]!r}")
         _nontrivial(ctx, case, not il.startswith("E|") and il != "~")
         _kind(ctx, op + ":" + (il.split("|", 1)[0] if op == "R" else "x"))
     elif op in ("K", "T", "L", "P", "S", "G"):
@@ -105,9 +110,9 @@ def check_case(prop, case, il, ml, ctx):
             for key in ("m", "n", "c"):
                 if key in M and M[key] != M["s"]:
                     probs.append(f"MODEL-LAYER {key} differs from spec: {M[key][:120]!r} vs {M['s'][:120]!r}")
-        if "m" in I and "c" in I and I["m"] != I["c"]:
+        if mode == "spec" and "m" in I and "c" in I and I["m"] != I["c"]:
             probs.append(f"{op}: cache answer differs from mapper answer: {I['c'][:160]!r} vs {I['m'][:160]!r}")
-        if "m" in I and "n" in I and I["m"] != I["n"]:
+        if mode == "spec" and "m" in I and "n" in I and I["m"] != I["n"]:
             probs.append(f"{op}: mapper answers differ with/without parameter index")
         ans = I.get("m", "")
         _nontrivial(ctx, case, ans not in ("~", "[]", "") and not (op == "S" and ans == case.split(" ")[1]))
@@ -120,11 +125,12 @@ def check_case(prop, case, il, ml, ctx):
         else:
             _eq(probs, "Y/depth", I.get("d", ""), M.get("d", ""))
             _eq(probs, "Y/print", I.get("p", ""), M.get("p", ""))
-            _eq(probs, "Y/typed mapper", I.get("m", ""), M.get("s", ""))
-            _eq(probs, "Y/typed cache", I.get("c", ""), M.get("s", ""))
-            _eq(probs, "Y/text of print", I.get("x", ""), M.get("x", ""))
+            if mode == "spec":
+                _eq(probs, "Y/typed mapper", I.get("m", ""), M.get("s", ""))
+                _eq(probs, "Y/typed cache", I.get("c", ""), M.get("s", ""))
+                _eq(probs, "Y/text of print", I.get("x", ""), M.get("x", ""))
             # the property's own statement on the implementation
-            if "m" in I and "/" in I["m"]:
+            if mode == "spec" and "m" in I and "/" in I["m"]:
                 d, h = I["m"].split("/", 1)
                 if d != I.get("d"):
                     probs.append(f"typed remapping changed the cause-chain depth: {I.get('d')} -> {d}")
@@ -134,13 +140,34 @@ def check_case(prop, case, il, ml, ctx):
             _kind(ctx, "Y:parsed")
     elif op == "W":
         _eq(probs, "cache bytes", I.get("w", ""), M.get("w", ""))
-        if I.get("test") != "ok":
+        if mode == "spec" and I.get("test") != "ok":
             probs.append(f"self test: {I.get('test')}")
         _nontrivial(ctx, case, len(I.get("w", "")) > 60)
         _kind(ctx, "W")
     elif op == "X" or op in ("k", "t", "l", "p", "s", "g"):
-        if il != ml:
-            probs.append(f"{op}: implementation {il[:200]!r} model {ml[:200]!r}")
+        st = ctx["stats"].setdefault("xstate", {"kind": None, "ref": {}, "accepted": False})
+        if op == "X":
+            st["kind"] = expected[0] if expected else None
+            st["accepted"] = (il == "r=ok")
+            if st["kind"] == "full":
+                st["ref"] = {}
+            if st["kind"] and st["kind"].startswith("expect:") and il != "r=" + st["kind"][7:]:
+                probs.append(f"edited header: implementation answered {il} but the property requires {st['kind'][7:]}")
+            if prop == "C11" and st["kind"] == "prefix":
+                # the property's own disjunction: rejected, or every query answered as by the full file;
+                # agreement of the error kind with the model is checked for rejected prefixes only
+                if il != "r=ok" and il != ml:
+                    probs.append(f"X: implementation {il[:200]!r} model {ml[:200]!r}")
+            elif il != ml:
+                probs.append(f"X: implementation {il[:200]!r} model {ml[:200]!r}")
+        else:
+            if st["kind"] == "full":
+                st["ref"][case] = il
+            if prop == "C11" and st["kind"] == "prefix":
+                if st["accepted"] and st["ref"].get(case) is not None and st["ref"][case] != il:
+                    probs.append(f"an accepted strict prefix answers {il[:160]!r} where the full file answers {st['ref'][case][:160]!r}")
+            elif il != ml:
+                probs.append(f"{op}: implementation {il[:200]!r} model {ml[:200]!r}")
         _nontrivial(ctx, case, il not in ("c=~", "c=[]", "c=noparse"))
         _kind(ctx, (il[:40] if op == "X" else op + ":" + ("hit" if il not in ("c=~", "c=[]", "c=noparse") else "miss")))
     else:
@@ -165,7 +192,7 @@ NOT_APPLICABLE = {}
 
 PROPS = {
     "C06": {
-        "theorems": ["C06_progress", "C06_items_bound"],
+        "theorems": ["C06_progress", "C06_items_bound", "C06_no_terminator", "C06_isolation"],
         "level_text": "Theorems about the slice-based parser model (progress of the iterator, at most one item per byte; "
                       "isolation and terminator-freedom as they are added) hold for every byte string; the model is tied to "
                       "src/mapping.rs by comparing complete record streams on generated inputs.",
@@ -173,9 +200,16 @@ PROPS = {
                       "correspondence model = code. No axioms.",
         "rule": "byte strings from the grammar generator (wild domain), token mutator, token soups, raw bytes; "
                 "non-trivial = the record stream contains at least one item; distinct by input bytes",
-        "status": "progress and item bound proved; isolation / no-terminator: see Prop file",
+        "status": "all four clauses proved at full strength (progress, item bound, no terminator in any yielded component, isolation on Ok-records for LF/CR/CRLF)",
         "assumptions": ["the slice based parser model equals src/mapping.rs (checked by the record-stream correspondence)"],
     },
+    "C05": {"theorems": [], "level_text": "", "level_note": "", "rule": ""},
+    "C11": {"theorems": [], "level_text": "", "level_note": "", "rule": ""},
+    "C12": {"theorems": [], "level_text": "", "level_note": "", "rule": ""},
+    "C13": {"theorems": [], "level_text": "", "level_note": "", "rule": "", "oracle": "model"},
+    "C07": {"theorems": [], "level_text": "", "level_note": "", "rule": ""},
+    "C08": {"theorems": [], "level_text": "", "level_note": "", "rule": ""},
+    "C16": {"theorems": [], "level_text": "", "level_note": "", "rule": ""},
     "C01": {"theorems": [], "level_text": "", "level_note": "", "rule": ""},
     "C02": {"theorems": [], "level_text": "", "level_note": "", "rule": ""},
     "C03": {"theorems": [], "level_text": "", "level_note": "", "rule": ""},
